@@ -12,7 +12,9 @@ STRIP = ('The following code was generated', '* on ', 'barectf_gen_date =')
 
 def main():
     with open(sys.argv[1]) as f:
-        cfg = barectf.configuration_from_file(f)
+        # partial files listed in `$include` properties are looked up next to the configuration file
+        import os
+        cfg = barectf.configuration_from_file(f, inclusion_directories=[os.path.dirname(os.path.abspath(sys.argv[1]))])
     cg = barectf.CodeGenerator(cfg)
     files = list(cg.generate_c_headers()) + list(cg.generate_c_sources()) + [cg.generate_metadata_stream()]
     out = {}
